@@ -67,7 +67,7 @@ PROPS = {
                      "give the same statuses / error / ran-set)",
         "level_text": "Set of executed tasks, final status of every stage and error-nil-ness of Schedule are compared with the "
                       "reference model for every explored schedule; every random pipeline is executed under two independent "
-                      "completion orders, the exhaustive part under all of them.",
+                      "completion orders, the exhaustive part under all of them. Generated failures come in four concrete error types.",
         "level_note": "Trusts the reference model; which error Schedule returns is not asserted (the statement does not promise it).",
         "rule": ENGINE_RULE + "Non-trivial for C02 = a non-allowed failure that has a dependant while another stage is in flight, or a "
                 "stage with one failed and one still-running dependency; distinct = canonical JSON of the case.",
@@ -93,7 +93,7 @@ PROPS = {
         "level_text": "At every quiescent point of every explored schedule the set of tasks simultaneously inside Runner.Run must equal "
                       "the model's eligible set; since nothing is released before that holds, a scheduler that serialises "
                       "independent stages can never get there and hits the liveness bound. Part rendezvous does the same at system "
-                      "level (real runner, binary): stages of one layer each wait for all others of the layer to be running. In part rendezvous the waiting loop sits in the task's command, in its condition or in its before hook (drawn).",
+                      "level (real runner, binary): stages of one layer each wait for all others of the layer to be running. In part rendezvous the waiting loop sits in the task's command, in its condition or in its before hook (drawn). The rendezvous tasks may share one named context with before and after commands.",
         "level_note": "Bounded liveness (4 s, retried once with 20 s); trusts the reference model's eligibility rule.",
         "rule": ENGINE_RULE + "rendezvous: rapid layered pipelines (1..3 layers x 2..4 stages; task names that collide once "
                 "normalised, one task in several concurrent stages, shared exportAs, allowed failures) run by the real runner through "
@@ -134,7 +134,7 @@ PROPS = {
                       "before/after absent|ok|failing x condition absent|true|false = 3024 tasks) in-process; random larger tasks "
                       "(6 commands, 4 exit shapes, statuses 1..255, sleeps) in-process, as a stage and through the binary. The trace "
                       "must equal the model trace token for token, so order, overlap (S immediately followed by its E), early stop "
-                      "and hook placement are all decided. A third of the random cases are run twice on one runner (same or new task object, drawn): every exit status, the condition's included, is read from a file when the command runs, and the second run has other statuses behind identical texts; it is judged by the model like the first. Command texts may begin with a comment line, an empty line, blanks or a line that ends in a comment.",
+                      "and hook placement are all decided. A third of the random cases are run twice on one runner (same or new task object, drawn): every exit status, the condition's included, is read from a file when the command runs, and the second run has other statuses behind identical texts; it is judged by the model like the first. Command texts may begin with a comment line, an empty line, blanks or a line that ends in a comment. The variation list may end with a copy of its first entry.",
         "level_note": "When an `after` hook fails the remaining `after` hooks may or may not run (statement is silent); a task without "
                       "variations counts as one empty variation.",
         "rule": "grammar: full enumeration (status of failing commands from a PRNG seeded by VERIF_SEED); statuses: every status 0..255 at "
@@ -154,7 +154,7 @@ PROPS = {
         "level_text": "Every exit status 0..255 at every command position of 1..3-command tasks, with and without allow_failure, run "
                       "directly and as a pipeline stage, is compared with the model (error-nil-ness, Errored, Error, ExitCode, Skipped); "
                       "CLI: 1..4 targets (tasks and pipelines) with drawn statuses in drawn order: exit 0 iff all succeed, executed in "
-                      "command-line order, nothing after the first failing target. A third of the random cases are run twice on one runner with statuses read at run time (same texts, other outcome); for a re-used task object only what the second run returns, executes and has reason to set is judged. `run task NAME` is also exercised with a pipeline of the same name that ends the other way round.",
+                      "command-line order, nothing after the first failing target. A third of the random cases are run twice on one runner with statuses read at run time (same texts, other outcome); for a re-used task object only what the second run returns, executes and has reason to set is judged. `run task NAME` is also exercised with a pipeline of the same name that ends the other way round. Pipeline targets may hold a stage with allow_failure that runs a failing nested pipeline.",
         "level_note": "Errored/ExitCode after a failing before-hook are not asserted (the statement speaks of commands); the non-zero value "
                       "of the process exit status is not asserted.",
         "rule": "statuses: full sweep; grammar: as C06; targets: rapid argv of 1..4 targets. Non-trivial for C07 = status > 1, or failing "
@@ -176,7 +176,7 @@ PROPS = {
                       "stage's overrides - no key private to another stage, no other stage's value - and the task's own settings "
                       "must be unchanged afterwards; repeated runs; in-process (recording Runner owns nothing but observes the "
                       "task object) and through the binary (values echoed by the commands, pwd -P); part real runs the shared-task "
-                      "API arrangement on the real runner with the task dir written as a template over a variable that stages override. The keys that tasks and stages set include names the runner maintains itself (ARGS, TASK_NAME, variable Args); every real execution prints them and the expectation carries the runner's defaults. In the cli part some of the names are already defined in the environment taskctl is started with. In part real some stage objects carry a Dir of their own: whatever that stage sees, the shared task and the other executions must not.",
+                      "API arrangement on the real runner with the task dir written as a template over a variable that stages override. The keys that tasks and stages set include names the runner maintains itself (ARGS, TASK_NAME, variable Args); every real execution prints them and the expectation carries the runner's defaults. In the cli part some of the names are already defined in the environment taskctl is started with. In part real some stage objects carry a Dir of their own: whatever that stage sees, the shared task and the other executions must not. The shared task may run in a named context with before and after commands (cli, real).",
         "level_note": "Overlap of concurrent stages at the binary level is provoked by sleep durations, not enumerated.",
         "rule": "api: rapid cases (task env/vars over 4+3 keys each present with p=1/3, stages with own subsets, arrangement drawn, "
                 "second pipeline, direct run, 1..2 repetitions); cli: the same plus stage/task dir. Non-trivial = >= 2 stages share the "
@@ -197,7 +197,7 @@ PROPS = {
                       "and stages; the printed value must be the highest level's. Untouched parent variables and TASK_NAME are checked "
                       "on every run, hooks on a quarter; stage cases run `taskctl pp tk`, so the direct run behind the pipeline is "
                       "checked in the same invocation. Dirs: every subset of {stage, task, context} dir x start directory x run mode "
-                      "x admissible task-dir forms, pwd -P in commands, before and after. A drawn subset of the levels defines the name with the empty value (a value like any other). The parent environment also holds names that nothing overrides but that resemble overridden ones (other case, prefix, suffix, case variants of TASK_NAME and ARGS); they must pass through on every line printed. Inherited values may contain '=' themselves.",
+                      "x admissible task-dir forms, pwd -P in commands, before and after. A drawn subset of the levels defines the name with the empty value (a value like any other). The parent environment also holds names that nothing overrides but that resemble overridden ones (other case, prefix, suffix, case variants of TASK_NAME and ARGS); they must pass through on every line printed. Inherited values may contain '=' themselves. With the variation level present there is a second variation that does not set the name; the command lines are compared as a sequence.",
         "level_note": "{{.Root}} in a task dir is used only when taskctl starts in the project root (from a sub-directory the code and the "
                       "README disagree about Root and the property does not settle it).",
         "rule": "env: rapid draws (permutation of six value ranks, run mode, hooks), then all subsets; dirs: full enumeration. Non-trivial = "
@@ -244,7 +244,7 @@ PROPS = {
                       "TempDir, Args, ArgsList and $ARGS (with and without `--`). Argument vectors of up to 5 words (target-like, "
                       "k=v, -x, --set, --, -c ...) after `--` must arrive verbatim and in order and never run as targets (marker "
                       "tasks named like every word). An undefined reference at every command position (and in dir) of 1..4-command "
-                      "tasks: commands before it ran, it and later ones did not, exit status non-zero. In two thirds of the cases a second variable y is defined at its own drawn subset of the four levels, so command lines carry two --set flags in either order. The argument alphabet includes words with blanks or tabs and the empty word (.ArgsList must keep the word boundaries). A task variable is a template over x, and stage cases run `pp tk`: the pipeline and the direct run resolve the same texts against their own variables.",
+                      "tasks: commands before it ran, it and later ones did not, exit status non-zero. In two thirds of the cases a second variable y is defined at its own drawn subset of the four levels, so command lines carry two --set flags in either order. The argument alphabet includes words with blanks or tabs and the empty word (.ArgsList must keep the word boundaries). A task variable is a template over x, and stage cases run `pp tk`: the pipeline and the direct run resolve the same texts against their own variables. The undefined reference may sit in the task's condition.",
         "level_note": "Words are shell-safe (the harness passes argv directly, no shell involved).",
         "rule": "vars: rapid (mode, dash, <=3 words, value permutation) then all subsets; args: rapid; undefined: full enumeration. "
                 "Non-trivial = >= 2 levels present (vars); >= 2 words of which one is target-like / starts with '-' / has '=' (args); "
@@ -267,7 +267,7 @@ PROPS = {
                       "retry; ~10 ms normally); recorded pids must disappear; no marker may appear after the cancel completed; "
                       "interrupted and later runs must report errors; waiting stages must not be done. Commands may ignore SIGINT "
                       "(2 s kill grace); at the return of every single Cancel call - also of an overlapping second one - the interrupted "
-                      "commands must be gone. Tasks may run in an execution context with before/after commands of its own; the marker log is snapshotted at the return of every Cancel call and nothing may be added to it afterwards. The tasks may allow failure and may carry a generous timeout of their own (an interruption is still not a success); stages interrupted inside a command must not be reported done. Phases ctx-up / ctx-before: the cancel lands while a command of the task's execution context runs.",
+                      "commands must be gone. Tasks may run in an execution context with before/after commands of its own; the marker log is snapshotted at the return of every Cancel call and nothing may be added to it afterwards. The tasks may allow failure and may carry a generous timeout of their own (an interruption is still not a success); stages interrupted inside a command must not be reported done. Phases ctx-up / ctx-before: the cancel lands while a command of the task's execution context runs. Phase after-hook: the cancel lands in a task's after command (cut, nothing follows; the task itself had succeeded).",
         "level_note": "'At any moment' is sampled at marker granularity (plus drawn delays of 0..20 ms), not at instruction granularity.",
         "rule": "matrix: in-flight 0..4 x waiting {0,2} x 6 injection points x once/twice-seq/twice-conc x runner/scheduler + condition "
                 "errors (quick: double cancels only for <= 2 in flight; thorough: all); cancel: rapid over the same space with drawn "
@@ -307,7 +307,7 @@ PROPS = {
                       "commands must succeed (every command gets the full timeout). Run must return within the sum of the commands' "
                       "deadlines (+2.5 s kill grace for the SIGINT-ignoring child) + 1.5 s slack, report failure also with "
                       "allow_failure, start no later command, and leave no process behind; an over-running `after` is cut short and "
-                      "does not change the result. Hook lists have up to three commands, including several 0.6-timeout commands in one hook list (each hook command gets the full timeout as well). A third of the random cases and some matrix rows run the task as the only stage of a pipeline; the task's timeout setting must be unchanged afterwards. Interactive tasks read an idle pipe; external commands that finish early are unaffected.",
+                      "does not change the result. Hook lists have up to three commands, including several 0.6-timeout commands in one hook list (each hook command gets the full timeout as well). A third of the random cases and some matrix rows run the task as the only stage of a pipeline; the task's timeout setting must be unchanged afterwards. Interactive tasks read an idle pipe; external commands that finish early are unaffected. Matrix rows with timeouts of 1, 500 and 999 microseconds. A real-time command found cut is re-run once with three times the timeout before it is reported (machine load).",
         "level_note": "Time bounds are generous (a 2x slower termination passes); a breach is re-tried once with 5x slack before it is reported.",
         "rule": "matrix: 52 cases (exhaustive over the listed grid at timeout 300/500 ms); random: rapid (timeout 200..1000 ms, 1..4 commands, "
                 "hooks). Non-trivial = an over-runner at position >= 1, or in a hook, or with allow_failure, or >= 2 commands of 0.6 x timeout; "
@@ -327,7 +327,7 @@ PROPS = {
                       "appends a token to one trace file. Per context: exactly one `up` before every other token; failing `up` => no "
                       "task command and every Run errors; #before = #after = executions, and in every prefix #before >= #started tasks "
                       "and #after <= #ended tasks; sequential runs strictly before, task, after; exactly one `down` after everything, "
-                      "none for unused contexts, also when a CLI target failed. In the cli part a target is a task run directly or a pipeline of 1..3 consecutive tasks chained by depends_on, mixed on one command line. Any of a context's four hook lists may be absent (drawn); `down` is due whenever the context was used, whether or not it has `up` commands. Part watch: a watcher's start-up run and 1..3 event runs each execute inside the context's before/after, up once.",
+                      "none for unused contexts, also when a CLI target failed. In the cli part a target is a task run directly or a pipeline of 1..3 consecutive tasks chained by depends_on, mixed on one command line. Any of a context's four hook lists may be absent (drawn); `down` is due whenever the context was used, whether or not it has `up` commands. Part watch: a watcher's start-up run and 1..3 event runs each execute inside the context's before/after, up once. A drawn subset of the contexts has a failing down command.",
         "level_note": "A task skipped by its own condition may or may not count as an execution for before/after; `down` after a failed "
                       "`up` may or may not run (statement silent).",
         "rule": "rapid cases; non-trivial = >= 2 tasks share a context in a concurrent mode, or a task has a hook/condition, or `up` fails; "
@@ -369,7 +369,7 @@ PROPS = {
                       "unknown stage, depends_on->stage of another pipeline, depends_on->name of a task or pipeline, self-dependency, watcher->unknown task, duplicate stage "
                       "name, pipeline inclusion cycle of length 1..3} at a drawn position: `list` must exit non-zero with a message and "
                       "`validate` must not say 'file is valid', without crashing. Unbroken configurations must be accepted and every "
-                      "pipeline must run to exit 0 within 10 s (40 s on the retry) without a fatal log line. Break kind dupstage writes a stage twice (task or pipeline stage alike); pipelines may be included by several stages of the including pipeline. Break kind dep-blank: an empty or blank depends_on entry. The stage that closes an inclusion cycle has a drawn name.",
+                      "pipeline must run to exit 0 within 10 s (40 s on the retry) without a fatal log line. Break kind dupstage writes a stage twice (task or pipeline stage alike); pipelines may be included by several stages of the including pipeline. Break kind dep-blank: an empty or blank depends_on entry. The stage that closes an inclusion cycle has a drawn name. Break kind dep-padded: a stage name with blanks around it.",
         "level_note": "Commands of the generated tasks are `true`; what the pipelines do is not the subject here.",
         "rule": "rapid cases; every case is non-trivial; distinct = (break kind, position class, canonical JSON). Classes: break kind x "
                 "position class, format.",
@@ -388,7 +388,7 @@ PROPS = {
                       "visible). Loading must end within 10 s; with every reachable file intact exactly the reachable definitions are "
                       "present, each once; a missing or unparsable file inside the closure must make loading fail with a message, "
                       "outside it must not matter. All 64 splits of {2 tasks, 2 contexts, 2 variables} between the global and the "
-                      "project file must leave everything available.",
+                      "project file must leave everything available. File names may hold glob metacharacters.",
         "level_note": "URL imports are not exercised (no network).",
         "rule": "exhaustive: 530 graphs (quick: a seventh of them also with one broken file at every position and both kinds; thorough: "
                 "all); random: rapid; splits: 64. Non-trivial = cycle, diamond/repeated import, directory import, or a broken file inside "
@@ -408,7 +408,7 @@ PROPS = {
                       "fields in both forms, durations as strings and integers, booleans, numeric scalars in string positions, nested "
                       "maps, an imported second file of the same format) are written as YAML, JSON and TOML; load verdict, `list`, "
                       "`show` of every task, `graph` of every pipeline and running every task and pipeline with --raw (exit status, "
-                      "command output, per-stage summary lines with durations and colours removed, sorted) must agree pairwise. A quarter of the cases hold null values in env / variables maps and are compared between YAML and JSON only.",
+                      "command output, per-stage summary lines with durations and colours removed, sorted) must agree pairwise. A quarter of the cases hold null values in env / variables maps and are compared between YAML and JSON only. Strings may hold characters beyond the BMP; half of the cases write JSON the ASCII-only way (surrogate-pair escapes).",
         "level_note": "Numeric scalars are integers |n| < 2^53 and short decimals (JSON numbers are doubles by definition); contexts with "
                       "`executable` are not generated; every YAML string is double-quoted so YAML 1.1 implicit typing cannot change content.",
         "rule": "rapid cases; non-trivial = at least one pipeline with >= 2 stages and (a scalar-form list field, or a duration, or an "
